@@ -164,13 +164,15 @@ Qed.
 Print Assumptions C10_error_queued_before_stop_or_close.
 
 (* Volume: the listener calls are exactly the adjacent unequal pairs (old, new) of the
-   values fed to the comparer, starting from the initial value; stated for any moment of
-   any run: calls made so far ++ calls still owed for the scheduled values = the calls
-   owed for everything dispatched. *)
+   levels announced by the protocols (dvols: device-side changes AND the levels that result
+   from the user's own set_volume / volume_up / volume_down through the facade), starting from
+   the initial value - so the old value of a call is always the value the listener saw last;
+   stated for any moment of any run: calls made so far ++ calls still owed for the scheduled
+   values = the calls owed for everything announced. *)
 Theorem C10_volume_old_new_correct :
   forall c ops,
     vols (outs c init ops) ++ pairs (vol (final c init ops)) (qvols (queue (final c init ops))) =
-      pairs 0 (dvols ops).
+      pairs 0 (dvols c init ops).
 Proof. intros c ops. exact (vol_gen c ops init). Qed.
 Print Assumptions C10_volume_old_new_correct.
 
@@ -192,13 +194,30 @@ Print Assumptions C10_focus_old_new_correct.
 
 (* once the loop has been drained the calls are exactly the pairs *)
 Theorem C10_volume_calls_after_drain :
-  forall c ops, vols (outs c init (ops ++ [RunAll])) = pairs 0 (dvols ops).
+  forall c ops, vols (outs c init (ops ++ [RunAll])) = pairs 0 (dvols c init ops).
 Proof.
   intros c ops. pose proof (C10_volume_old_new_correct c (ops ++ [RunAll])) as H.
   rewrite final_runall_queue in H. simpl in H. rewrite app_nil_r in H. rewrite H.
-  clear H. f_equal. induction ops as [|o t IH]; [reflexivity|]. destruct o; simpl; now rewrite ?IH.
+  clear H. f_equal. generalize init as s.
+  induction ops as [|o t IH]; intro s; [reflexivity|].
+  change ((o :: t) ++ [RunAll]) with (o :: (t ++ [RunAll])).
+  change (dvols c s (o :: t ++ [RunAll])) with (hvol c s o ++ dvols c (fst (fst (step c s o))) (t ++ [RunAll])).
+  now rewrite IH.
 Qed.
 Print Assumptions C10_volume_calls_after_drain.
+
+(* the user's own change is reported like any other: set_volume(v) on an open device with an
+   Audio provider, then the loop runs: the listener is called with (initial value, v) iff v
+   differs from it - and a following device-side change is reported with old = v *)
+Theorem C10_user_set_volume_is_reported :
+  forall c m p v w,
+    main_of (aregs c) None = Some m ->
+    vols (outs c init ([SetVol v; DispVol p w] ++ [RunAll])) = pairs 0 [v; w].
+Proof.
+  intros c m p v w M. rewrite C10_volume_calls_after_drain.
+  simpl. unfold uvol. simpl. now rewrite M.
+Qed.
+Print Assumptions C10_user_set_volume_is_reported.
 
 (* "only when the value actually changes": no call has old = new, and each call's old value
    is the previous call's new value (the first one's is the initial value) *)
@@ -215,13 +234,18 @@ Print Assumptions C10_pairs_are_changes.
 
 (* ---- non-vacuity ------------------------------------------------------------------------------ *)
 
-Definition ex_cfg : cfg := {| regs := [1; 0]; kregs := [0; 3]; sraise := [] |}.
+Definition ex_cfg : cfg := {| regs := [1; 0]; kregs := [0; 3]; sraise := []; aregs := [0] |}.
 
 Example C10_ex_run :
   outs ex_cfg init [Start; Post 0 0; Post 1 0; Post 0 0; Post 0 1; RunAll;
                     Take 1 [IPush]; Post 1 2; Post 0 2; RunAll; Post 0 1; Stop; RunAll;
                     DispVol 1 1; DispVol 0 1; DispVol 0 2; RunAll] =
     [DPlay 0 0; DPlay 0 1; DPlay 1 2; DVol 0 1; DVol 1 2].
+Proof. vm_compute. reflexivity. Qed.
+
+Example C10_ex_user_volume :
+  outs ex_cfg init [DispVol 1 2; RunAll; SetVol 6; RunAll; DispVol 0 10; VolUp; VolDown; VolDown; RunAll] =
+    [DVol 0 2; DVol 2 6; DVol 6 10; DVol 10 11; DVol 11 10; DVol 10 9].
 Proof. vm_compute. reflexivity. Qed.
 
 Example C10_ex_steady :
@@ -232,7 +256,7 @@ Proof. rewrite (C10_notify_iff_changed ex_cfg 0); reflexivity. Qed.
 (* the updater of protocol 1 (iterated first) fails in stop(): stop() raises, protocol 0's updater keeps
    its listener, yet neither the scheduled nor a later status is delivered *)
 Example C10_ex_stop_raises :
-  run {| regs := [1; 0]; kregs := []; sraise := [1] |} init [Start; Post 0 1; Stop; RunAll; Post 0 2; RunAll] =
+  run {| regs := [1; 0]; kregs := []; sraise := [1]; aregs := [] |} init [Start; Post 0 1; Stop; RunAll; Post 0 2; RunAll] =
     [([], ROk); ([], ROk); ([], RRaise); ([], ROk); ([], ROk); ([], ROk)].
 Proof. vm_compute. reflexivity. Qed.
 
